@@ -37,11 +37,11 @@ STUBS = ["minimal HourlyModel instance (object.__new__ + _ts_feature_norm/_categ
          "numba kernels de-jitted for (a)"]
 MODELS_USED = ["symreal ExtensionArray", "object ndarray of proxies"]
 ASSUMPTIONS = ["IANA database (pytz) and pandas tz arithmetic are executed, not modelled: zones/transitions are an enumerated catalogue",
-               "hourly predictions finite on every row: outside the claim (sklearn ElasticNet/scalers)",
+               "(c) complete hourly predict: hand-written stored model, concrete weather, enumerated spans; finiteness of hourly predictions is checked there only",
                "zones whose offset changes by a fraction of an hour are outside (b): the hourly data class only accepts on-the-hour stamps"]
 EXPECTED_REGIMES = ["23-hour day", "25-hour day", "transition at local midnight", "daily index across DST", "non-finite (inf) cell in the reporting frame",
                     "temperature-only reporting data (usage column all NaN)", "model with several sub-models and a gap in the reporting frame",
-                    "calendar day absent before the transition day"]
+                    "calendar day absent before the transition day", "complete hourly predict across a transition"]
 
 
 def ENCODED():
@@ -72,6 +72,7 @@ def cases(tier, seed):
     for z in zones:
         out.append(f"b|{z}")
         out.append(f"a|{z}")
+        out.append(f"c|{z}")
     return out
 
 
@@ -366,12 +367,85 @@ def replay_daily(inp):
     return bool(pr), "; ".join(pr[:4])
 
 
-REPLAY = {"dst": replay_dst, "daily": replay_daily}
+# ------------------------------------------------------------------ (c) the complete hourly predict, concrete weather
+
+def hourly_predict_scenario(zone, date, before, usage):
+    """real HourlyReportingData + HourlyModel.predict (hand-written stored model for `zone`, see hourlyref) on the
+    whole local days around a transition: one finite prediction per real hour, on the real clock"""
+    import logging
+    logging.disable(logging.CRITICAL)
+    from opendsm.eemeter.models.hourly.data import HourlyReportingData
+    from . import hourlyref as H
+    idx = span_index(zone, date, before) if before != "skip" else hourly_index(zone, date, days=4, before=2)
+    rng = np.random.default_rng(11)
+    df = pd.DataFrame({"temperature": rng.normal(55, 15, len(idx))}, index=idx)
+    if usage != "absent":
+        df["observed"] = np.abs(rng.normal(1.5, 0.5, len(idx))) + 0.1
+        if usage != "present":
+            df.loc[np.array([t.date() == dt.date.fromisoformat(date) for t in idx]), "observed"] = np.nan
+    pr = []
+    try:
+        data = HourlyReportingData(df, is_electricity_data=True)
+        out = H.model(tz=zone).predict(data)
+    except Exception as ex:
+        return [f"{type(ex).__name__}: {str(ex)[:140]}"]
+    if list(out.index) != list(idx):
+        extra = [str(t) for t in out.index if t not in set(idx)][:2]
+        lost = [str(t) for t in idx if t not in set(out.index)][:2]
+        pr.append(f"{len(out)} rows for {len(idx)} real hours (not in the input: {extra}; missing: {lost}; chronological: {out.index.is_monotonic_increasing})")
+    elif str(out.index.tz) != str(idx.tz):
+        pr.append(f"timezone {out.index.tz} instead of {idx.tz}")
+    nf = int((~np.isfinite(out["predicted"].to_numpy(dtype=float))).sum())
+    if nf:
+        pr.append(f"{nf} of {len(out)} hourly predictions are not finite")
+    return pr
+
+
+def replay_hourly_predict(inp):
+    pr = hourly_predict_scenario(inp["zone"], inp["date"], inp["before"], inp["usage"])
+    return bool(pr), "; ".join(pr)
+
+
+def run_c(case: Case, zone, tier):
+    trs = transitions(zone, [2021] if tier == "quick" else [2011, 2021])
+    if not trs:
+        case.ground(True, "zone without DST: nothing to normalise")
+        return
+    case.inputs = []
+    for date in trs:
+        idx = hourly_index(zone, date)
+        if any(l not in (23, 24, 25) for l in [len(v) for v in expected_slots(idx)[1].values()]):
+            case.note(f"{zone} {date}: fractional shift, skipped")
+            continue
+        if any(t.minute for t in idx):
+            case.note(f"{zone}: local stamps are not on the hour (fractional UTC offset): outside (c), the hourly data class re-stamps such input")
+            case.ground(True, "zone with a fractional UTC offset: outside (c)")
+            continue
+
+        def run():
+            cfg = dict(zone=zone, date=date, before=F.choose("before", [1, 0, 2]), usage=F.choose("usage", ["present", "absent", "missing on the transition day"]))
+            return cfg, hourly_predict_scenario(**cfg)
+
+        paths = case.explore(run)
+        for p in paths:
+            if p.outcome != "ret":
+                case.rep["harness_errors"].append(f"hourly predict scenario raised {p.value!r}")
+                continue
+            cfg, pr = p.value
+            rp = ("hourly-predict", (lambda c: lambda mdl: dict(c))(cfg))
+            case.prove(p, not pr, "HourlyModel.predict returns one finite prediction per real hour of the reporting frame, on the real clock", replay=rp)
+            case.regime("complete hourly predict across a transition")
+    case.sample(dict(zone=zone, transitions=trs))
+
+
+REPLAY = {"dst": replay_dst, "daily": replay_daily, "hourly-predict": replay_hourly_predict}
 
 
 def run_case(case: Case, name: str):
     part, zone = name.split("|")
     if part == "b":
         run_b(case, zone, case.tier)
+    elif part == "c":
+        run_c(case, zone, case.tier)
     else:
         run_a(case, zone, case.tier)
